@@ -320,31 +320,34 @@ type deliveryCtx struct {
 }
 
 type simStats struct {
-	concurrentWrites  bool // two nodes wrote the same field / doc without having merged each other's write
-	oooDelivery       bool // delivery out of causal order / of a non-head ancestor
-	dupDelivery       bool // delivery of an already merged commit
-	partialAncestors  bool // delivered commit with ancestors partly merged
-	headsDiffHeights  bool
-	tieEqualHeight    bool
-	nullInvolved      bool
-	deleteVsUpdate    bool
-	sameGenesis       bool
-	multiHeads        bool
-	mergeErrors       int
-	deliveries        int
-	localCommits      int
-	counterIncs       int
-	aeRounds          int
-	ttReads           int
-	ttQueries         int
-	ttNontrivial      int
-	ttMultiParent     int
-	ttCounter         int
-	ttRemote          int
-	sharedUpdateBlock bool // an update on one node produced a field-level block that another node's write produced too
-	mirrors           int  // updates that repeated another node's latest field writes
-	lateJoin          int  // deliveries to a node that had merged nothing of the document, of a commit with >= 4 ancestors
-	lateJoinMerged    int  // ... whose ancestors include a commit with two parents (both branches arrive in one merge)
+	concurrentWrites   bool // two nodes wrote the same field / doc without having merged each other's write
+	oooDelivery        bool // delivery out of causal order / of a non-head ancestor
+	dupDelivery        bool // delivery of an already merged commit
+	partialAncestors   bool // delivered commit with ancestors partly merged
+	headsDiffHeights   bool
+	tieEqualHeight     bool
+	nullInvolved       bool
+	deleteVsUpdate     bool
+	sameGenesis        bool
+	multiHeads         bool
+	mergeErrors        int
+	deliveries         int
+	localCommits       int
+	counterIncs        int
+	aeRounds           int
+	ttReads            int
+	ttQueries          int
+	ttNontrivial       int
+	ttMultiParent      int
+	ttCounter          int
+	ttRemote           int
+	sharedUpdateBlock  bool // an update on one node produced a field-level block that another node's write produced too
+	mirrors            int  // updates that repeated another node's latest field writes
+	lateJoin           int  // deliveries to a node that had merged nothing of the document, of a commit with >= 4 ancestors
+	lateJoinMerged     int  // ... whose ancestors include a commit with two parents (both branches arrive in one merge)
+	filteredUpdates    int  // updates selected by a filter instead of the docID argument
+	inListUpdates      int  // ... whose condition lists the old and the new value of i
+	indexServedUpdates int  // ... on an indexed collection, by a condition on the indexed field i
 }
 
 func (s *sim) logf(format string, args ...any) {
@@ -381,6 +384,15 @@ func writtenFields(block []byte) (map[string]bool, *coreblock.Block) {
 // record registers the commits produced by a local operation on node.
 func (s *sim) record(nodeIdx int, kind string, doc string, ops []FieldOp, msgs []hx.Msg) *hx.Failure {
 	var lastDoc *commit
+	docLevel := 0
+	for _, msg := range msgs {
+		if msg.DocID != "" {
+			docLevel++
+		}
+	}
+	if docLevel > 1 {
+		return hx.Failf("C02/applied-twice/one-operation-several-commits", "one %s of %s on n%d produced %d document-level commits: the operation was applied more than once", kind, doc, nodeIdx, docLevel)
+	}
 	for _, msg := range msgs {
 		if msg.DocID != "" {
 			if msg.DocID != doc {
@@ -610,6 +622,32 @@ func (s *sim) exec(st Step) *hx.Failure {
 				return nil
 			}
 			q = fmt.Sprintf(`mutation { update_Users(docID: %q, input: %s) { _docID } }`, doc, gqlInput(st.Ops))
+			switch st.Via {
+			case 1:
+				q = fmt.Sprintf(`mutation { update_Users(filter: {_docID: {_eq: %q}}, input: %s) { _docID } }`, doc, gqlInput(st.Ops))
+				s.stats.filteredUpdates++
+			case 2:
+				row, cnt, rr := queryDoc(n, doc)
+				if cnt != 1 {
+					hx.Harnessf("read of a live known document before a filtered update returned %d rows: %s", cnt, rr.Err())
+				}
+				cond := "{_eq: null}"
+				if row["i"] != nil {
+					cond = fmt.Sprintf("{_ge: %s}", hx.CanonValue(row["i"]))
+					for _, o := range st.Ops {
+						// the value list of an _in is served by one index lookup per value, each seeing the writes made so far
+						if o.Field == "i" && o.Set != "null" && o.Set != hx.CanonValue(row["i"]) {
+							cond = fmt.Sprintf("{_in: [%s, %s]}", hx.CanonValue(row["i"]), o.Set)
+							s.stats.inListUpdates++
+						}
+					}
+				}
+				q = fmt.Sprintf(`mutation { update_Users(filter: {i: %s, _docID: {_eq: %q}}, input: %s) { _docID } }`, cond, doc, gqlInput(st.Ops))
+				s.stats.filteredUpdates++
+				if s.c.Cfg.Indexed {
+					s.stats.indexServedUpdates++
+				}
+			}
 		} else {
 			q = fmt.Sprintf(`mutation { delete_Users(docID: %q) { _docID } }`, doc)
 		}
@@ -622,6 +660,15 @@ func (s *sim) exec(st Step) *hx.Failure {
 			hx.Harnessf("%s on a live known document failed: %s", q, r.Err())
 		}
 		msgs := s.cl.Collect(nodeIdx)
+		if st.Kind == "update" && st.Via != 0 && len(msgs) == 0 {
+			// The rows a filtered update returns are filtered again after the update, so they do not tell whether
+			// the document was selected; a counter increment always changes the document, so it must have committed.
+			for _, o := range st.Ops {
+				if isCounter(o.Field) && o.Inc != 0 {
+					return hx.Failf("C02/filtered-update/not-applied", "%s: the filter describes the live document %s as the node shows it and the input increments a counter, but no commit was made", q, doc)
+				}
+			}
+		}
 		if f := s.record(nodeIdx, st.Kind, doc, st.Ops, msgs); f != nil {
 			return f
 		}
